@@ -234,6 +234,12 @@ pub fn gen_pipeline(seed: u64, allowed: &[Config], restrict: &Restrict) -> Plan 
         }
         .min(total - 1)
     };
+    // a 2-/4-byte field boundary near the start of a record
+    let field_pos = |rng: &mut Rng| -> usize {
+        let r = rng.below(lens.len());
+        let (s, l) = (starts[r], lens[r].max(1));
+        (s + 2 * rng.below(6).min(l / 2)).min(total - 1)
+    };
     let nfaults = *rng.pick(&[1usize, 1, 1, 1, 1, 1, 1, 1, 2, 2, 3]);
     // swarm: each run enables a random subset of the fault kinds
     let mask = rng.next() | rng.next();
@@ -279,7 +285,26 @@ pub fn gen_pipeline(seed: u64, allowed: &[Config], restrict: &Restrict) -> Plan 
                 };
                 p.medium.push(MFault::Tail { bytes });
             }
-            10 => p.medium.push(MFault::Pad0 { rec: rng.below(p.records.len()) }),
+            10 => {
+                if rng.chance(1, 2) {
+                    p.medium.push(MFault::Pad0 { rec: rng.below(p.records.len()) });
+                } else {
+                    let bytes: Vec<u8> = match rng.below(8) {
+                        0 => vec![0x7f, 0xff],
+                        1 => vec![0xff, 0xff],
+                        2 => vec![0x80, 0x00],
+                        3 => vec![0x7f, 0xff, 0xff, 0xff],
+                        4 => vec![0xff, 0xff, 0xff, 0xff],
+                        5 => vec![0x80, 0x00, 0x00, 0x00],
+                        6 => vec![0x00, 0x00],
+                        _ => {
+                            let n = *rng.pick(&[2usize, 4, 8]);
+                            rng.bytes(n)
+                        }
+                    };
+                    p.medium.push(MFault::Field { at: field_pos(rng), bytes });
+                }
+            }
             11 if io_r || (arm.scale_input)(&p) => {
                 let kind = if rng.chance(1, 2) { CutKind::Err } else { CutKind::Eof };
                 p.read.cut = Some((pos(rng), kind));
